@@ -53,6 +53,44 @@ def make_inputs(rng, spec):
     return obj, argv
 
 
+def _plain_dicts(x):
+    """OrderedDict -> dict, recursively (in Namespace / dict / list / tuple)"""
+    import collections
+
+    if isinstance(x, Namespace):
+        for k, v in vars(x).items():
+            vars(x)[k] = _plain_dicts(v)
+        return x
+    if isinstance(x, collections.OrderedDict):
+        return {k: _plain_dicts(v) for k, v in x.items()}
+    if type(x) is dict:
+        return {k: _plain_dicts(v) for k, v in x.items()}
+    if type(x) is list:
+        return [_plain_dicts(v) for v in x]
+    if type(x) is tuple:
+        return tuple(_plain_dicts(v) for v in x)
+    return x
+
+
+def _as_ordered(obj, types):
+    """replace the mappings given for Dict-typed arguments by OrderedDict instances (in place) -> number replaced"""
+    import collections
+
+    n = 0
+    for name, t in types.items():
+        if t.kind == "optional":
+            t = t.children[0]
+        if t.kind != "dict":
+            continue
+        cur, parts = obj, name.split(".")
+        for part in parts[:-1]:
+            cur = cur.get(part) if isinstance(cur, dict) else None
+        if isinstance(cur, dict) and type(cur.get(parts[-1])) is dict and cur[parts[-1]]:
+            cur[parts[-1]] = collections.OrderedDict(cur[parts[-1]])
+            n += 1
+    return n
+
+
 def produce(route, p, C, argv, workdir, n):
     """-> Outcome whose value is the re-parsed configuration (or the failure of some step)."""
     if route.startswith("dump."):
@@ -377,14 +415,17 @@ def case(ctx, i, rng):
     p = o.value
     obj, argv = make_inputs(rng, spec)
     via = rng.choice(["object", "argv", "argv"])
-    o = call(p.parse_object, copy.deepcopy(obj)) if via == "object" else call(p.parse_args, list(argv))
+    given = copy.deepcopy(obj)
+    if via == "object" and rng.random() < 0.3 and _as_ordered(given, P.arg_types(spec)):
+        ctx.count("st.ordered_dict_given_for_dict_argument")  # what a Python caller may well hand over for a Dict[...] argument
+    o = call(p.parse_object, given) if via == "object" else call(p.parse_args, list(argv))
     ctx.count(f"ev.source.{via}.{'accepted' if o.accepted else 'rejected'}")
     if not o.accepted:
         if not o.rejected:
             ctx.observe("escape_not_judged_here(C03)", o.brief())
         return
     C = o.value
-    C0 = copy.deepcopy(C)
+    C0 = _plain_dicts(copy.deepcopy(C))  # a dump cannot say "ordered": the reference holds plain dicts, the dumped object is C
     dests = cfg_dests(spec)
     types = P.arg_types(spec)
     for k, t in types.items():
@@ -399,7 +440,7 @@ def case(ctx, i, rng):
     for n, route in enumerate(routes):
         if route.startswith("print_config") and via != "argv":
             continue
-        Cin = copy.deepcopy(C0)
+        Cin = copy.deepcopy(C)
         stage, ro, text = produce(route, p, Cin, argv, ctx.workdir, n)
         ctx.count(f"mon.route.{route}")
         ctx.evaluation(("rt", route, tuple(sorted(t.skel for t in types.values())), via, tuple(string_classes(C0))))
